@@ -43,6 +43,8 @@ func Harness_C17_InitThenExport() {
 			{DomainId: verifrt.NondetU32("md0"), Address: verifrt.NondetBytes("ma0", 32)},
 			{DomainId: verifrt.NondetU32("md1"), Address: verifrt.NondetBytes("ma1", 32)}},
 	}
+	verifrt.Assume(verifrt.All(verifrt.IsASCII(g.PerMessageBurnLimitList[0].Denom), verifrt.IsASCII(g.PerMessageBurnLimitList[1].Denom),
+		verifrt.IsASCII(g.AttesterList[0].Attester), verifrt.IsASCII(g.AttesterList[1].Attester)))
 	verifrt.Assume(verifrt.All(len(g.TokenPairList[0].RemoteToken) == 32, len(g.TokenPairList[1].RemoteToken) == 32,
 		len(g.TokenMessengerList[0].Address) == 32, len(g.TokenMessengerList[1].Address) == 32))
 	// the four role strings are compared, not decoded, by export: validation of their syntax is C11's
